@@ -47,6 +47,17 @@ let handle line =
      | Errors (ls, c) ->
        [id ^ " E " ^ String.concat "," (List.map (fun (n, e) -> string_of_z n ^ ":" ^ cls e) ls)
         ^ ";close:" ^ (match c with None -> "-" | Some e -> cls e)])
+  | L [A "unreduce"; A id; num; den; A base; bprec; L chain] ->
+    (* (unreduce ID NUM DEN BASELABELHEX BASEPREC ((LABELHEX FNUM FDEN PREC) ...))
+       -> "ID U labelhex:num/den|scaled:prec": the unit reached, the exact quantity in it, and
+       round(quantity * 10^prec) as stream_out_mpq prints it at that unit's display precision *)
+    let ch = List.map (function L [A l; fn; fd; _] -> (str_of_hex l, h_qmake (zatom fn) (zatom fd)) | _ -> failwith "chain") chain in
+    let precs = (str_of_hex base, zatom bprec) :: List.map (function L [A l; _; _; p] -> (str_of_hex l, zatom p) | _ -> failwith "chain") chain in
+    let (lab, q) = unreduce_walk ch (str_of_hex base) (h_qmake (zatom num) (zatom den)) in
+    let q = h_qred q in
+    let prec = List.assoc lab precs in
+    [id ^ " U " ^ hex_of_str lab ^ ":" ^ string_of_z (h_qnum q) ^ "/" ^ string_of_z (h_qden q)
+     ^ "|" ^ string_of_z (print_scaled (h_qnum q) (h_qden q) prec) ^ ":" ^ string_of_z prec]
   | _ -> failwith "case"
 
 let () = main_loop handle
